@@ -6,4 +6,4 @@ sys.path.insert(0, str(Path(__file__).resolve().parent.parent))
 from sa import canon
 d = canon.generate(Path("/repo/src/physt"))
 canon.REF.write_text(json.dumps(d, indent=0, sort_keys=True))
-print(sum(len(v) for v in d.values()), "functions with locals recorded")
+print(sum(len(v) for k, v in d.items() if not k.startswith("__")), "functions with locals recorded")
